@@ -1510,3 +1510,312 @@ _run_part2 = run
 def run(ctx):   # noqa: F811
     _run_part2(ctx)
     run_mhn(ctx, import_cuqi(), ctx.tier == "thorough")
+
+
+# ============================================================================= part 3: re-assignment histories
+def _gauss_value(rs, form, kind, n, prev=None):
+    """matrix parameter of the given kind for the given form; `prev` (dense array) is reused for the
+    'same' (all entries shared) and 'some' (lower part shared, upper part added) kinds"""
+    import scipy.sparse as sp
+    squares = [0.25, 4.0, 16.0, 0.0625]
+    roots = [0.5, 2.0, 4.0, -2.0]
+    if kind == "scalar":
+        return float(rs.choice(squares if form in ("cov", "prec") else roots))
+    if kind == "vector":
+        return np.array(rs.choice(squares if form in ("cov", "prec") else roots, size=n), dtype=float)
+    if kind == "diag2d":
+        return np.diag(np.array(rs.choice(squares if form in ("cov", "prec") else roots, size=n), dtype=float))
+    if kind == "same" and prev is not None:
+        return np.array(prev, dtype=float, copy=True)
+    if kind == "some" and prev is not None and np.ndim(prev) == 2:
+        M = np.array(prev, dtype=float, copy=True)
+        if form in ("cov", "prec"):
+            M = M + np.diag(rs.choice([1.0, 2.0], size=n))            # still SPD, off-diagonal entries shared
+        else:
+            M = M + np.triu(rint(rs, 1, 2, size=(n, n)).astype(float), 1)   # lower part and diagonal shared, upper part new
+        return M
+    sparse_fmt = None
+    if kind.startswith("sparse-"):
+        _, sub, sparse_fmt = kind.split("-")
+    else:
+        sub = kind if kind in ("lower", "upper", "full", "lowerbi", "upperbi", "tridiag") else "full"
+    M = gen_matrix(rs, sub, n)
+    if form in ("cov", "prec"):
+        M = M @ M.T
+    if sparse_fmt:
+        return sp.csr_matrix(M).asformat(sparse_fmt)
+    return M
+
+
+def run_histories(ctx, cuqi, thorough):
+    """construct -> sample -> re-assign -> sample (-> re-assign -> sample) on ONE object; after every step the draws
+    must be the model's prediction for the CURRENT parameters and equal those of a freshly constructed object."""
+    import scipy.sparse as sp
+    import scipy.stats as sps
+    from cuqi.distribution import (Gaussian, GMRF, Normal, Gamma, InverseGamma, Beta, Laplace, Cauchy, Uniform, Lognormal)
+    rs = np.random.RandomState(ctx.seed + 507)
+
+    # ------------------------------------------------------------------ Gaussian
+    trans = [("diag2d", "full"), ("lower", "upper"), ("lower", "full"), ("vector", "full"), ("scalar", "lower"),
+             ("lower", "some"), ("full", "lower"), ("lower", "sparse-full-csr"), ("sparse-lowerbi-dia", "upper"),
+             ("upper", "diag2d"), ("lower", "same"), ("diag2d", "upper"), ("sparse-tridiag-csc", "lower"), ("vector", "scalar")]
+    third = ["full", "lower", "upper", "diag2d", "some", "vector"]
+    hist = []
+    for form in ("cov", "prec", "sqrtcov", "sqrtprec"):
+        for (k0, k1) in trans:
+            for rep in range(ctx.scale):
+                n = int(rint(rs, 2, 6))
+                kinds = [k0, k1] + ([str(rs.choice(third))] if rs.rand() < 0.5 else [])
+                hist.append((form, n, kinds, bool(rs.rand() < 0.3)))
+    lines, metas = [], []
+    for (form, n, kinds, change_mean) in hist:
+        mean = rint(rs, -3, 3, size=n).astype(float)
+        prev = None
+        G = None
+        steps = []
+        for si, kind in enumerate(kinds):
+            val = _gauss_value(rs, form, kind, n, prev)
+            prev = dense(val) if np.ndim(val) == 2 or sp.issparse(val) else None
+            if si > 0 and change_mean:
+                mean = rint(rs, -3, 3, size=n).astype(float)
+            desc = {"family": "Gaussian", "form": form, "dim": n, "history": kinds[:si + 1], "step": si,
+                    "current_value": (dense(val).tolist() if np.ndim(val) == 2 or sp.issparse(val) else np.asarray(val).tolist()),
+                    "current_mean": mean.tolist()}
+            key = f"history:Gaussian:{form}:{'->'.join(kinds[:si + 1])}"
+            try:
+                with quiet():
+                    if G is None:
+                        G = Gaussian(mean.copy(), **{form: val})
+                    else:
+                        if change_mean:
+                            G.mean = mean.copy()
+                        setattr(G, form, val)
+                    fresh = Gaussian(mean.copy(), **{form: (val.copy() if hasattr(val, "copy") else val)})
+                    ok_dim = int(G.dim) == n and int(fresh.dim) == n
+            except Exception as e:
+                ctx.note(f"history: Gaussian refused {key}: {type(e).__name__}: {str(e)[:60]}")
+                break
+            if not ok_dim:
+                break
+            r1 = Script(unit_plan(n)); s1, e1, u1 = call_sample(G, n + 1, r1)
+            r2 = Script(unit_plan(n)); s2, e2, u2 = call_sample(fresh, n + 1, r2)
+            with quiet():
+                Rf = fresh.sqrtprec
+            cols = np.hstack([np.zeros((n, 1)), np.eye(n)]).T
+            lines.append(f"gauss {1 if sp.issparse(Rf) else 0} {qv(mean.tolist())} {qm(dense(Rf).tolist())} {qm(cols.tolist())}")
+            metas.append(dict(kind="gauss", key=key, desc=desc, G=G, n=n, s1=s1, e1=e1, s2=s2, e2=e2, u=u1, calls=r1.calls, step=si))
+            # the history object is used again: freeze what the oracle needs now
+            metas[-1]["oracle"] = None
+            if e1 is None:
+                Si = values(s1)
+                if Si.shape == (n, n + 1):
+                    off = Si[:, 0].copy(); B = Si[:, 1:] - off[:, None]
+                    H, g = hessian_from_logpdf(G, off)
+                    metas[-1]["oracle"] = (off, B, H, g)
+    # ------------------------------------------------------------------ GMRF (prec / mean)
+    for bc in ("zero", "neumann"):
+        for order in (1, 2):
+            for rep in range(2 * ctx.scale):
+                n = int(rint(rs, 3, 7))
+                mean = rint(rs, -3, 3, size=n).astype(float); prec = float(rs.choice([0.25, 4.0, 16.0]))
+                try:
+                    with quiet():
+                        G = GMRF(mean.copy(), prec, bc_type=bc, order=order)
+                except Exception:
+                    continue
+                for si in range(3):
+                    if si > 0:
+                        if rs.rand() < 0.7:
+                            prec = float(rs.choice([p for p in (0.25, 1.0, 4.0, 16.0) if p != prec]))
+                        if rs.rand() < 0.5:
+                            mean = rint(rs, -3, 3, size=n).astype(float)
+                        with quiet():
+                            G.prec = prec; G.mean = mean.copy()
+                    with quiet():
+                        fresh = GMRF(mean.copy(), prec, bc_type=bc, order=order)
+                    rows = int(G._diff_op.shape[0]) if bc == "neumann" else n
+                    r1 = Script(unit_plan(rows)); s1, e1, u1 = call_sample(G, rows + 1, r1)
+                    r2 = Script(unit_plan(rows)); s2, e2, u2 = call_sample(fresh, rows + 1, r2)
+                    c = 1.0 / np.sqrt(prec)
+                    cols = np.hstack([np.zeros((rows, 1)), np.eye(rows)]).T
+                    if bc == "zero":
+                        lines.append(f"gmrfz {qv(mean.tolist())} {q(c)} {qm(dense(fresh._chol.T).tolist())} {order} {n} 1 {qm(cols.tolist())}")
+                    else:
+                        lines.append(f"gmrfn {qv(mean.tolist())} {q(c)} {order} {n} 1 {qm(cols.tolist())}")
+                    desc = {"family": "GMRF", "bc": bc, "order": order, "n": n, "step": si, "current_prec": prec, "current_mean": mean.tolist()}
+                    metas.append(dict(kind="gmrf", key=f"history:GMRF:{bc}:order{order}", desc=desc, G=G, n=n, s1=s1, e1=e1, s2=s2, e2=e2, u=u1,
+                                      calls=r1.calls, step=si, bc=bc, oracle=None))
+                    if e1 is None:
+                        Si = values(s1)
+                        if Si.shape == (n, rows + 1):
+                            off = Si[:, 0].copy(); B = Si[:, 1:] - off[:, None]
+                            H, g = hessian_from_logpdf(G, off)
+                            metas[-1]["oracle"] = (off, B, H, g)
+    # ------------------------------------------------------------------ Lognormal (mean / cov)
+    for rep in range(6 * ctx.scale):
+        n = int(rint(rs, 1, 4))
+        L = None
+        for si in range(3):
+            mean = rint(rs, -1, 1, size=n).astype(float)
+            kind = str(rs.choice(["scalar", "vector", "full"])) if n > 1 else "scalar"
+            cov = _gauss_value(rs, "cov", kind, n)
+            if kind == "full":
+                cov = cov / 4.0
+            try:
+                with quiet():
+                    if L is None:
+                        L = Lognormal(mean.copy(), cov)
+                    else:
+                        L.mean = mean.copy(); L.cov = cov
+                    fresh = Lognormal(mean.copy(), cov.copy() if hasattr(cov, "copy") else cov)
+                    Rf = dense(fresh._normal.sqrtprec)
+            except Exception as e:
+                ctx.note(f"history: Lognormal refused: {type(e).__name__}")
+                break
+            tgt = np.hstack([np.zeros((n, 1)), np.eye(n)])
+            pl = lambda method, shape, k, tgt=tgt: tgt if method in ("randn", "standard_normal") and shape == tgt.shape else None  # noqa
+            r1 = Script(pl); s1, e1, u1 = call_sample(L, n + 1, r1)
+            r2 = Script(pl); s2, e2, u2 = call_sample(fresh, n + 1, r2)
+            lines.append(f"gauss 0 {qv(mean.tolist())} {qm(Rf.tolist())} {qm(tgt.T.tolist())}")
+            desc = {"family": "Lognormal", "dim": n, "step": si, "current_mean": mean.tolist(), "current_cov": np.asarray(cov).tolist()}
+            metas.append(dict(kind="logn", key="history:Lognormal", desc=desc, G=L, n=n, s1=s1, e1=e1, s2=s2, e2=e2, u=u1, calls=r1.calls, step=si, oracle=None))
+            if e1 is None and values(s1).shape == (n, n + 1) and np.all(values(s1) > 0):
+                Y = np.log(values(s1)); off = Y[:, 0].copy(); B = Y[:, 1:] - off[:, None]
+                H, g = hessian_from_logpdf(_LogVar(L), off)
+                metas[-1]["oracle"] = (off, B, H, g)
+    outs = ctx.lean.drive(lines)
+    for m, out in zip(metas, outs):
+        key, desc, n = m["key"], m["desc"], m["n"]
+        ctx.case("history-" + m["kind"], desc, nontrivial=m["step"] > 0)
+        if m["e1"] is not None or m["e2"] is not None:
+            if (m["e1"] is None) != (m["e2"] is None):
+                ctx.disagree(key, desc, m["e2"], m["e1"], "history object and fresh object differ in raising")
+                ctx.fail(key, desc, "same behaviour as a freshly constructed object with the current parameters", {"history": m["e1"], "fresh": m["e2"]}, "sampling after re-assignment")
+            continue
+        S1, S2 = values(m["s1"]), values(m["s2"])
+        if m["kind"] == "logn":
+            S1c, S2c = (np.log(S1) if np.all(S1 > 0) else S1), (np.log(S2) if np.all(S2 > 0) else S2)
+        else:
+            S1c, S2c = S1, S2
+        bad = False
+        tol = 1e-6 if m.get("bc") == "neumann" else 1e-9
+        if out.startswith(("err", "bad", "cert")):
+            ctx.note(f"history: model refuses at {desc}: {out}")
+        else:
+            body = out.split(" ", 1)[1] if m["kind"] in ("gauss", "logn") or m.get("bc") == "neumann" else out
+            Sm = np.array([[float(x) for x in row] for row in pm(body)]).T
+            if S1c.shape != Sm.shape or not mclose(S1c.tolist(), Sm.tolist(), tol):
+                ctx.disagree(key, desc, Sm.tolist(), S1c.tolist(), "draws after this step vs the model for the CURRENT parameters")
+                bad = True
+        fresh_same = S1.shape == S2.shape and mclose(S1c.tolist(), S2c.tolist(), 1e-12)
+        if not fresh_same:
+            ctx.fail(key, desc, "draws equal those of a freshly constructed object with the current parameters (same generator state)",
+                     {"history_object": S1c.tolist(), "fresh_object": S2c.tolist()}, "state left over from earlier parameters / draws influences sampling")
+        if m["oracle"] is not None:
+            off, B, H, g = m["oracle"]
+            if np.all(np.isfinite(H)):
+                C = B @ B.T
+                singular = m.get("bc") == "neumann"
+                lhs, rhs = (H @ C @ H, H) if singular else (C @ H, np.eye(n))
+                t2 = 1e-6
+                if np.abs(g).max() > t2 * max(1.0, np.abs(H).max()) * max(1.0, np.abs(off).max()) or \
+                        np.abs(lhs - rhs).max() > t2 * max(1.0, np.abs(lhs).max(), np.abs(rhs).max()):
+                    ctx.fail(key, desc, "mean / covariance of the draws are those implied by the object's current log-density",
+                             {"max_abs_error": float(np.abs(lhs - rhs).max()), "grad_at_offset": g.tolist()}, "after re-assignment the draws do not follow the current density")
+        if not m["u"]:
+            ctx.fail(key + ":global-state", desc, "global numpy random state untouched", "changed")
+
+    # ------------------------------------------------------------------ iid families: re-assigned parameters
+    fams = {
+        "normal": (Normal, ["mean", "std"], lambda n: [rint(rs, -3, 3, size=n).astype(float), rs.choice([0.25, 0.5, 2.0, 4.0], size=n)]),
+        "gamma": (Gamma, ["shape", "rate"], lambda n: [rs.choice([0.5, 2.0, 3.0, 4.5], size=n), rs.choice([0.25, 0.5, 2.0, 4.0], size=n)]),
+        "invgamma": (InverseGamma, ["shape", "location", "scale"], lambda n: [rs.choice([2.0, 3.0, 4.5], size=n), rint(rs, -1, 2, size=n).astype(float), rs.choice([0.25, 0.5, 2.0, 4.0], size=n)]),
+        "beta": (Beta, ["alpha", "beta"], lambda n: [rs.choice([0.5, 2.0, 3.0], size=n), rs.choice([0.5, 2.0, 3.0], size=n)]),
+        "laplace": (Laplace, ["location", "scale"], lambda n: [rint(rs, -3, 3, size=n).astype(float), float(rs.choice([0.25, 0.5, 2.0, 4.0]))]),
+        "uniform": (Uniform, ["low", "high"], lambda n: (lambda lo: [lo, lo + rs.choice([0.25, 0.5, 2.0, 4.0], size=n)])(rint(rs, -3, 3, size=n).astype(float))),
+        "cauchy": (Cauchy, ["location", "scale"], lambda n: [rint(rs, -3, 3, size=n).astype(float), rs.choice([0.25, 0.5, 2.0, 4.0], size=n)]),
+    }
+    boundary = {"invgamma": (sps.invgamma, ["a", "loc", "scale"]), "beta": (sps.beta, ["a", "b"]), "cauchy": (sps.cauchy, ["loc", "scale"])}
+
+    def iid_call(fam, D, N, dim, Gm):
+        rec = {}
+        if fam in boundary:
+            law, order = boundary[fam]
+
+            def fake(*a, _rec=rec, **kw):
+                _rec["kw"] = kw
+                return Gm.copy()
+            law.rvs = fake
+            rng = Script()
+            try:
+                s, err, unt = call_sample(D, N, rng)
+            finally:
+                del law.rvs
+            kw = rec.get("kw", {})
+            call = (fam + ".rvs", [np.broadcast_to(np.atleast_1d(np.asarray(kw.get(k), dtype=float)).ravel(), (dim,)).tolist() for k in order] if kw else [],
+                    tuple(kw.get("size", ())), kw.get("random_state") is rng and len(rng.calls) == 0)
+        else:
+            rng = Script(lambda method, shape, k: Gm.copy() if shape == Gm.shape else None)
+            s, err, unt = call_sample(D, N, rng)
+            c = rng.calls[0] if len(rng.calls) == 1 else ("-", (), ())
+            call = (c[0], [np.broadcast_to(np.atleast_1d(np.asarray(a, dtype=float)).ravel(), (dim,)).tolist() for a in c[1]], c[2], len(rng.calls) == 1 and not rng.leaked())
+        return s, err, unt, call
+
+    lines, metas = [], []
+    for fam, (cls, names, gen) in fams.items():
+        for rep in range(2 * ctx.scale):
+            dim = int(rs.choice([1, 2, 3]))
+            N = dim + 2
+            pars = gen(dim)
+            as_arg = lambda p: (float(np.ravel(p)[0]) if dim == 1 or np.isscalar(p) else np.array(p, dtype=float))  # noqa
+            try:
+                with quiet():
+                    D = cls(*[as_arg(p) for p in pars])
+                    assert int(D.dim) == dim
+            except Exception:
+                continue
+            for si in range(3):
+                if si > 0:
+                    newp = gen(dim)
+                    which = [j for j in range(len(names)) if rs.rand() < 0.6] or [int(rs.randint(len(names)))]
+                    if fam == "uniform":
+                        which = list(range(len(names)))
+                    for j in which:
+                        pars[j] = newp[j]
+                        with quiet():
+                            setattr(D, names[j], as_arg(pars[j]))
+                with quiet():
+                    fresh = cls(*[as_arg(p) for p in pars])
+                Gm = rint(rs, 1, 64, size=(N, dim)) / 64.0
+                s1, e1, u1, c1 = iid_call(fam, D, N, dim, Gm)
+                s2, e2, u2, c2 = iid_call(fam, fresh, N, dim, Gm)
+                pl = " ".join(qv(np.atleast_1d(np.asarray(as_arg(p), dtype=float)).tolist()) for p in pars)
+                lines.append(f"plumb {fam} {N} {dim} {pl} {qm(Gm.tolist())}")
+                desc = {"family": fam, "dim": dim, "step": si, "current_params": [np.asarray(p).tolist() for p in pars]}
+                metas.append((fam, dim, N, desc, s1, e1, c1, s2, e2, c2))
+    outs = ctx.lean.drive(lines)
+    for (fam, dim, N, desc, s1, e1, c1, s2, e2, c2), out in zip(metas, outs):
+        key = f"history:{fam}"
+        ctx.case("history-iid", desc, nontrivial=desc["step"] > 0)
+        if e1 is not None or e2 is not None or out.startswith(("err", "bad")):
+            if (e1 is None) != (e2 is None):
+                ctx.disagree(key, desc, e2, e1, "raising differs from a fresh object")
+                ctx.fail(key, desc, "same behaviour as a fresh object", {"history": e1, "fresh": e2}, "sampling after re-assignment")
+            continue
+        call, dens, S = out.split(" ")
+        method, *margs, msize = call.split("|")
+        margs = [np.broadcast_to(np.array([float(x) for x in pv(a)]), (dim,)).tolist() for a in margs]
+        mN, mdim = [int(t) for t in msize.split("x")]
+        if not (c1[3] and c1[0] == method and c1[2] == (mN, mdim) and c1[1] == margs):
+            ctx.disagree(key, desc, call, str(c1)[:200], "generator call after re-assignment vs the model for the CURRENT parameters")
+        if c1[:3] != c2[:3] or not np.array_equal(values(s1), values(s2)):
+            ctx.fail(key, desc, "generator call and draws equal those of a freshly constructed object with the current parameters",
+                     {"history_object": str(c1[:3])[:200], "fresh_object": str(c2[:3])[:200]}, "stale parameters reach the generator after re-assignment")
+
+
+_run_part3 = run
+
+
+def run(ctx):   # noqa: F811
+    _run_part3(ctx)
+    run_histories(ctx, import_cuqi(), ctx.tier == "thorough")
